@@ -23,6 +23,8 @@
 (*   ratio_pm, tanrho_pm      axis ratio; tan of the distance to CRVAL     *)
 (* kind = "hand"  one pixel step towards N / E / S / W: h_de, h_dn, h_pa   *)
 (* kind = "psf"   psf lookups without a psf map against the header beam    *)
+(* kind = "psfmap" get_psf_sky2sky with a psf map whose planes hold the    *)
+(*                1-based (row, col) of each map pixel: want_* / got_*     *)
 (* err # ""       the real code raised or returned a non-finite value      *)
 (*                                                                         *)
 (* Strict = TRUE evaluates the minor-axis clause without its linear-regime *)
@@ -60,10 +62,14 @@ FailsPsf(r) ==
     Clause("psf_sky_at_reference_is_header_beam", PsfSkyAtRef(r))
     \o Clause("psf_pixel_lookups_are_pixel_beam", PsfPixLookups(r))
 
+FailsPsfMap(r) ==
+    Clause("psf_map_lookup_returns_containing_pixel", PsfMapPixel(r))
+
 Fails(r) == IF r.err # "" THEN <<"completed">>
             ELSE IF r.kind = "conv" THEN FailsConv(r)
             ELSE IF r.kind = "hand" THEN FailsHand(r)
             ELSE IF r.kind = "psf" THEN FailsPsf(r)
+            ELSE IF r.kind = "psfmap" THEN FailsPsfMap(r)
             ELSE <<"unknown_record_kind">>
 
 Next == BatchNext(Fails)
